@@ -9,6 +9,7 @@ import (
 	"context"
 	"crypto/aes"
 	"errors"
+	"io"
 	"sync"
 	"time"
 
@@ -16,6 +17,7 @@ import (
 	"github.com/gotd/neo"
 
 	"github.com/gotd/td/bin"
+	"github.com/gotd/td/clock"
 	"github.com/gotd/td/crypto"
 	"github.com/gotd/td/mtproto"
 	"github.com/gotd/td/proto"
@@ -80,6 +82,39 @@ func (l *lockedRand) Read(p []byte) (int, error) {
 	return l.r.Read(p)
 }
 
+// SafeClock is the fake clock handed to the Conn: gotd/neo behind one mutex. neo assigns a
+// new ticker's/timer's id after releasing its own lock, so a Travel racing with the creation of
+// a ticker is a data race inside neo; the outer mutex orders them (needed for -race runs).
+type SafeClock struct {
+	mu sync.Mutex
+	t  *neo.Time
+}
+
+func NewSafeClock(start time.Time) *SafeClock { return &SafeClock{t: neo.NewTime(start)} }
+func (c *SafeClock) Now() time.Time           { c.mu.Lock(); defer c.mu.Unlock(); return c.t.Now() }
+func (c *SafeClock) Timer(d time.Duration) clock.Timer {
+	c.mu.Lock()
+	defer c.mu.Unlock()
+	return c.t.Timer(d)
+}
+func (c *SafeClock) Ticker(d time.Duration) clock.Ticker {
+	c.mu.Lock()
+	defer c.mu.Unlock()
+	return c.t.Ticker(d)
+}
+func (c *SafeClock) Travel(d time.Duration) time.Time {
+	c.mu.Lock()
+	defer c.mu.Unlock()
+	return c.t.Travel(d)
+}
+func (c *SafeClock) Set(now time.Time) { c.mu.Lock(); defer c.mu.Unlock(); c.t.Set(now) }
+
+// Observe returns a channel closed at the next timer/ticker creation or tick.
+func (c *SafeClock) Observe() <-chan struct{} { c.mu.Lock(); defer c.mu.Unlock(); return c.t.Observe() }
+
+// LockedRand wraps the harness PRNG as a concurrency-safe io.Reader.
+func LockedRand(r *hx.Rand) io.Reader { return &lockedRand{r: r} }
+
 // Frame is a decrypted client frame.
 type Frame struct {
 	Salt      int64
@@ -129,7 +164,7 @@ func (r *Recorder) Count() int {
 type Env struct {
 	Conn    *mtproto.Conn
 	Pipe    *Pipe
-	Clock   *neo.Time
+	Clock   *SafeClock
 	Key     crypto.AuthKey
 	Session int64
 	Handler *Recorder
@@ -162,7 +197,7 @@ func NewEnv(rng *hx.Rand, cfg Config) *Env {
 	}
 	var k crypto.Key
 	copy(k[:], rng.Bytes(len(k)))
-	e := &Env{Pipe: NewPipe(), Clock: neo.NewTime(cfg.Start), Key: k.WithID(), Session: cfg.Session,
+	e := &Env{Pipe: NewPipe(), Clock: NewSafeClock(cfg.Start), Key: k.WithID(), Session: cfg.Session,
 		Handler: &Recorder{}, Rng: rng}
 	e.server = crypto.NewServerCipher(&lockedRand{r: rng.Fork()})
 	e.srvIDs = proto.NewMessageIDGen(e.Clock.Now)
